@@ -614,6 +614,47 @@ def chained_baselines(res):
         shutil.rmtree(d, ignore_errors=True)
 
 
+def cross_process_self_baseline(res):
+    """The baseline is written by one process and read by another (that is what a baseline is for): a scan of unchanged code against its own report finds
+    nothing new whatever hash seed either interpreter runs under (seeded change C07-m13 built a message from an unordered set: the same finding got two
+    different identities in two processes)."""
+    import subprocess, sys
+    from props import c08
+    d = tempfile.mkdtemp(prefix="bverif_c07x_")
+    try:
+        ex = os.path.join(C.REPO, "examples")
+        picked = [f for f in ("snmp.py", "crypto-md5.py", "subprocess_shell.py", "ssl-insecure-version.py", "weak_cryptographic_key_sizes.py", "requests-missing-timeout.py",
+                              "hardcoded-passwords.py", "sql_statements.py", "tarfile_extractall.py", "mark_safe_insecure.py") if os.path.exists(os.path.join(ex, f))]
+        for f in picked:
+            shutil.copy(os.path.join(ex, f), os.path.join(d, f))
+        base = os.path.join(d, "base.json")
+        rc, so, se = c08.cli_subprocess(["-r", ".", "-f", "json", "-o", base, "-q"], d, 0)
+        try:
+            n_base = len(json.load(open(base))["results"])
+        except Exception:
+            res.violation("no baseline report could be written in a subprocess", {"rc": rc, "stderr": se[-300:]})
+            return
+        os.rename(base, os.path.join(os.path.dirname(d), os.path.basename(d) + ".json"))
+        base = os.path.join(os.path.dirname(d), os.path.basename(d) + ".json")
+        for seed in (1, 2, 3, 7):
+            out = os.path.join(d, "rescan.json")
+            rc, so, se = c08.cli_subprocess(["-r", ".", "-f", "json", "-b", base, "-o", out, "-q"], d, seed)
+            res.case(("cross-process-self-baseline", seed), n_base > 0)
+            res.count("cross-process-self-baseline")
+            try:
+                new = json.load(open(out))["results"]
+                os.remove(out)
+            except Exception:
+                new = None
+            if new is None or new or rc != 0:
+                res.violation("unchanged code scanned against its own baseline in another process (another hash seed) reports findings",
+                              {"files (copies of bandit's examples)": picked, "baseline_written_under_PYTHONHASHSEED": 0, "rescan_under_PYTHONHASHSEED": seed, "baseline_findings": n_base, "exit": rc,
+                               "reported": [[x["test_id"], os.path.basename(x["filename"]), x["line_number"], x["issue_text"][:120]] for x in (new or [])][:8]})
+        os.remove(base)
+    finally:
+        shutil.rmtree(d, ignore_errors=True)
+
+
 def run(res, ctx):
     thorough = res.tier == "thorough"
     kinds = KINDS[res.tier]
@@ -641,6 +682,7 @@ def run(res, ctx):
         _run(res, ctx, chk, world, kinds, thr, fmts, thorough)
         self_baseline_variants(res)
         chained_baselines(res)
+        cross_process_self_baseline(res)
         if unknown_fmts:
             res.notes.append("baseline-capable formats without a parser here (only exit status checked): %s" % unknown_fmts)
     finally:
